@@ -50,6 +50,8 @@ type Auto struct {
 	BrokerPubrel bool `json:"broker_pubrel,omitempty"`
 	// ClientRegack: the client answers the gateway's REGISTER with REGACK(accepted).
 	ClientRegack bool `json:"client_regack,omitempty"`
+	// RegackRC: the return code of that REGACK (0 = accepted; 1..3 = the client refuses the registration).
+	RegackRC byte `json:"regack_rc,omitempty"`
 	// ClientAcks: the client acknowledges broker publishes (PUBACK / PUBREC, PUBCOMP on PUBREL).
 	ClientAcks bool `json:"client_acks,omitempty"`
 	// WillReplies: the client answers WILLTOPICREQ / WILLMSGREQ with these.
@@ -61,6 +63,7 @@ type Step struct {
 	// K: "sn" client sends SN; "snraw" client sends Raw; "mq" broker sends MQ;
 	// "mqraw" broker sends Raw; "adv" virtual time advances D ms; "cancel"
 	// gateway shutdown (context cancel); "mqclose" broker closes the connection;
+	// "mqstall"/"mqunstall" the broker stops/resumes reading (writes to it block);
 	// "auto" replaces the reactive behaviour.
 	K      string       `json:"k"`
 	SN     *snref.Pkt   `json:"sn,omitempty"`
@@ -318,101 +321,101 @@ func (s *Session) collect() (newEv []int) {
 	return
 }
 
+// Reactions computes what the scripted peers (which know only the protocols)
+// answer to one packet the gateway sent: datagrams from the client and MQTT
+// packets from the broker.
+func Reactions(a Auto, e Event) (sn []snref.Pkt, mq []mqttref.Pkt) {
+	if e.Dir == GB && e.MQ != nil {
+		m := e.MQ
+		switch m.Type {
+		case mqttref.CONNECT:
+			if a.Connack != nil {
+				mq = append(mq, mqttref.Pkt{Type: mqttref.CONNACK, RC: *a.Connack})
+			}
+		case mqttref.SUBSCRIBE:
+			if a.Suback != "" {
+				codes := make([]byte, len(m.QoSs))
+				for j, q := range m.QoSs {
+					switch a.Suback {
+					case "grant":
+						codes[j] = q & 3
+						if codes[j] == 3 {
+							codes[j] = 0x80
+						}
+					case "fail":
+						codes[j] = 0x80
+					default:
+						codes[j] = a.Suback[0] - '0'
+					}
+				}
+				mq = append(mq, mqttref.Pkt{Type: mqttref.SUBACK, MsgID: m.MsgID, Codes: codes})
+			}
+		case mqttref.PUBLISH:
+			if a.BrokerAcks && m.QoS == 1 {
+				mq = append(mq, mqttref.Pkt{Type: mqttref.PUBACK, MsgID: m.MsgID})
+			} else if a.BrokerAcks && m.QoS == 2 {
+				mq = append(mq, mqttref.Pkt{Type: mqttref.PUBREC, MsgID: m.MsgID})
+			}
+		case mqttref.PUBREL:
+			if a.BrokerAcks {
+				mq = append(mq, mqttref.Pkt{Type: mqttref.PUBCOMP, MsgID: m.MsgID})
+			}
+		case mqttref.PUBREC:
+			if a.BrokerPubrel {
+				mq = append(mq, mqttref.Pkt{Type: mqttref.PUBREL, MsgID: m.MsgID})
+			}
+		case mqttref.UNSUBSCRIBE:
+			if a.BrokerAcks {
+				mq = append(mq, mqttref.Pkt{Type: mqttref.UNSUBACK, MsgID: m.MsgID})
+			}
+		case mqttref.PINGREQ:
+			if a.BrokerAcks {
+				mq = append(mq, mqttref.Pkt{Type: mqttref.PINGRESP})
+			}
+		}
+	}
+	if e.Dir == GC && e.SN != nil {
+		p := e.SN
+		switch p.Type {
+		case snref.REGISTER:
+			if a.ClientRegack {
+				sn = append(sn, snref.Pkt{Type: snref.REGACK, TopicID: p.TopicID, MsgID: p.MsgID, RC: a.RegackRC})
+			}
+		case snref.PUBLISH:
+			if a.ClientAcks && p.QoS == 1 {
+				sn = append(sn, snref.Pkt{Type: snref.PUBACK, TopicID: p.TopicID, MsgID: p.MsgID, RC: 0})
+			} else if a.ClientAcks && p.QoS == 2 {
+				sn = append(sn, snref.Pkt{Type: snref.PUBREC, MsgID: p.MsgID})
+			}
+		case snref.PUBREL:
+			if a.ClientAcks {
+				sn = append(sn, snref.Pkt{Type: snref.PUBCOMP, MsgID: p.MsgID})
+			}
+		case snref.WILLTOPICREQ:
+			if a.WillTopic != nil {
+				sn = append(sn, *a.WillTopic)
+			}
+		case snref.WILLMSGREQ:
+			if a.WillMsg != nil {
+				sn = append(sn, *a.WillMsg)
+			}
+		}
+	}
+	return
+}
+
 // react lets the scripted peers answer; reports whether anything was sent.
 func (s *Session) react(idx []int) bool {
 	sent := false
-	a := s.auto
 	for _, i := range idx {
-		e := s.tr.Events[i]
-		if e.Dir == GB && e.MQ != nil {
-			m := e.MQ
-			switch m.Type {
-			case mqttref.CONNECT:
-				if a.Connack != nil {
-					s.BrokerSend(mqttref.Pkt{Type: mqttref.CONNACK, RC: *a.Connack}, true)
-					sent = true
-				}
-			case mqttref.SUBSCRIBE:
-				if a.Suback != "" {
-					codes := make([]byte, len(m.QoSs))
-					for j, q := range m.QoSs {
-						switch a.Suback {
-						case "grant":
-							codes[j] = q & 3
-							if codes[j] == 3 {
-								codes[j] = 0x80
-							}
-						case "fail":
-							codes[j] = 0x80
-						default:
-							codes[j] = a.Suback[0] - '0'
-						}
-					}
-					s.BrokerSend(mqttref.Pkt{Type: mqttref.SUBACK, MsgID: m.MsgID, Codes: codes}, true)
-					sent = true
-				}
-			case mqttref.PUBLISH:
-				if a.BrokerAcks && m.QoS == 1 {
-					s.BrokerSend(mqttref.Pkt{Type: mqttref.PUBACK, MsgID: m.MsgID}, true)
-					sent = true
-				} else if a.BrokerAcks && m.QoS == 2 {
-					s.BrokerSend(mqttref.Pkt{Type: mqttref.PUBREC, MsgID: m.MsgID}, true)
-					sent = true
-				}
-			case mqttref.PUBREL:
-				if a.BrokerAcks {
-					s.BrokerSend(mqttref.Pkt{Type: mqttref.PUBCOMP, MsgID: m.MsgID}, true)
-					sent = true
-				}
-			case mqttref.PUBREC:
-				if a.BrokerPubrel {
-					s.BrokerSend(mqttref.Pkt{Type: mqttref.PUBREL, MsgID: m.MsgID}, true)
-					sent = true
-				}
-			case mqttref.UNSUBSCRIBE:
-				if a.BrokerAcks {
-					s.BrokerSend(mqttref.Pkt{Type: mqttref.UNSUBACK, MsgID: m.MsgID}, true)
-					sent = true
-				}
-			case mqttref.PINGREQ:
-				if a.BrokerAcks {
-					s.BrokerSend(mqttref.Pkt{Type: mqttref.PINGRESP}, true)
-					sent = true
-				}
-			}
+		sn, mq := Reactions(s.auto, s.tr.Events[i])
+		for _, p := range mq {
+			s.BrokerSend(p, true)
+			sent = true
 		}
-		if e.Dir == GC && e.SN != nil {
-			p := e.SN
-			switch p.Type {
-			case snref.REGISTER:
-				if a.ClientRegack {
-					s.ClientSend(snref.Pkt{Type: snref.REGACK, TopicID: p.TopicID, MsgID: p.MsgID, RC: 0}, true)
-					sent = true
-				}
-			case snref.PUBLISH:
-				if a.ClientAcks && p.QoS == 1 {
-					s.ClientSend(snref.Pkt{Type: snref.PUBACK, TopicID: p.TopicID, MsgID: p.MsgID, RC: 0}, true)
-					sent = true
-				} else if a.ClientAcks && p.QoS == 2 {
-					s.ClientSend(snref.Pkt{Type: snref.PUBREC, MsgID: p.MsgID}, true)
-					sent = true
-				}
-			case snref.PUBREL:
-				if a.ClientAcks {
-					s.ClientSend(snref.Pkt{Type: snref.PUBCOMP, MsgID: p.MsgID}, true)
-					sent = true
-				}
-			case snref.WILLTOPICREQ:
-				if a.WillTopic != nil {
-					s.ClientSend(*a.WillTopic, true)
-					sent = true
-				}
-			case snref.WILLMSGREQ:
-				if a.WillMsg != nil {
-					s.ClientSend(*a.WillMsg, true)
-					sent = true
-				}
-			}
+		for _, p := range sn {
+			s.ClientSend(p, true)
+			sent = true
 		}
 	}
 	return sent
@@ -481,6 +484,12 @@ func (s *Session) Apply(i int, st Step) {
 	case "mqclose":
 		s.ev(Event{Dir: EV, What: "MQCLOSE"})
 		s.MQ.Close()
+	case "mqstall": // the broker stops reading: the gateway's writes to it block
+		s.ev(Event{Dir: EV, What: "MQSTALL"})
+		s.MQ.SetStalled(true)
+	case "mqunstall":
+		s.ev(Event{Dir: EV, What: "MQUNSTALL"})
+		s.MQ.SetStalled(false)
 	case "auto":
 		s.auto = *st.Auto
 		return
